@@ -233,8 +233,8 @@ def work_one(job):
                samples=[], max_trip=0, intrinsics=[], internal=None)
     t0 = time.time()
     budget = getattr(P, 'JOB_BUDGET', {}).get(job['tier'])
+    import signal
     if budget:
-        import signal
         def _alarm(sig, frm): raise JobBudget()
         signal.signal(signal.SIGALRM, _alarm); signal.alarm(int(budget))
     try:
@@ -267,6 +267,13 @@ def work_one(job):
             if status == 'discharged': rec['discharged'] += 1
         rec.update(queries=dec.queries, by_simplifier=dec.by_simplifier, by_search=dec.by_search, dedup=dec.dedup,
                    solver_s=dec.solver_s, samples=dec.samples)
+        vf = job.get('valfile')
+        if vf and ex.fpmode == 'exact':
+            if budget: signal.alarm(0)
+            from . import validate
+            tv = time.time()
+            rec['validation'] = validate.check_body(run, k, obs, goals, validate.wait_result(vf, k.name))
+            rec['validation']['seconds'] = round(time.time() - tv, 2)
         if ex.fmf_seen: rec['fmf'] = list(set(map(str, ex.fmf_seen)))
     except JobBudget:
         # wall-clock budget of this kernel body exhausted: whatever was not decided yet is undecided (never a pass)
@@ -276,7 +283,6 @@ def work_one(job):
     except Exception as e:
         rec['status'] = 'error'; rec['internal'] = '%s: %s\n%s' % (type(e).__name__, e, traceback.format_exc()[-1500:])
     if budget:
-        import signal
         signal.alarm(0)
     rec['wall_s'] = time.time() - t0
     return rec
@@ -524,9 +530,18 @@ def run_property(prop, P, tier, seed, modname, timeout=None, jobs=None, keep=Fal
             rep = next((x for x in ks if x.arch.startswith('emu') or gen.ARCH[x.arch][3]), ks[0])
             joblist.append(dict(prop=prop, kernel=rep, members=[x.arch for x in ks], llpath=tu_of[rep.fname], tier=tier,
                                 timeout=timeout, replay_root=replay_root))
+        valinfo = None
+        if not os.environ.get('XV_NOVALIDATE') and not getattr(P, 'NO_VALIDATE', False):
+            from . import validate
+            where, nunsup = validate.native_batch([j['kernel'] for j in joblist], work, tier, seed, extra_flags=getattr(P, 'EXTRA_FLAGS', ()), fexc=getattr(P, 'FEXC', False))
+            for j in joblist: j['valfile'] = where.get(j['kernel'].name)
+            valinfo = dict(unsupported_signature=nunsup)
+        P._valinfo = valinfo
         known = load_known()
         # longest first is unknown: shuffle deterministically for balance
         random.Random(seed).shuffle(joblist)
+        if hasattr(P, 'job_priority'):
+            joblist.sort(key=lambda j: -P.job_priority(j['kernel']))    # expected-longest first (stable: ties keep the shuffled order)
         with mp.Pool(jobs, initializer=_init_worker, initargs=({prop: modname}, known), maxtasksperchild=40) as pool:
             lem_specs = getattr(P, 'LEMMAS', [])
             lem_async = pool.map_async(prove_lemma, lem_specs, chunksize=1)
@@ -635,19 +650,40 @@ def finish(prop, P, tier, seed, kernels, dropped, missing, recs, wall, t_lower, 
         'assumptions': getattr(P, 'ASSUMPTIONS', []),
         'wall_s': round(wall, 2), 'violations': nviol,
     }
+    # translator validation (xv/validate.py): formula vs natively compiled wrapper on concrete inputs
+    val = collections.Counter(); mism = []; valerr = []
+    for r in recs:
+        v = r.get('validation')
+        if not v: continue
+        val['bodies'] += 1
+        for key in ('agreed', 'skipped_pre', 'trapped', 'inconclusive', 'solver'): val[key] += v.get(key, 0)
+        if v.get('error'): valerr.append('%s: %s' % (r['kernel'], v['error']))
+        for m_ in v.get('mismatches', []): mism.append(dict(kernel=r['kernel'], **m_))
+    vi = getattr(P, '_valinfo', None)
+    if vi is not None:
+        evidence['coverage']['encoder_validation'] = dict(
+            what='formula of each distinct body evaluated on concrete inputs (boundary lattice + seeded random) and compared with the natively compiled wrapper: the native result must be an outcome the formula allows',
+            bodies_validated=val['bodies'], inputs_agreed=val['agreed'], inputs_outside_preconditions=val['skipped_pre'],
+            inputs_inconclusive=val['inconclusive'], needed_solver=val['solver'], mismatches=mism[:20], mismatch_count=len(mism),
+            native_errors=valerr[:10], not_validated_signature=vi.get('unsupported_signature', 0),
+            not_covered='wrappers with pointer arguments (validated through counterexample replay only), abstract / token FP modes, architectures the host cannot execute')
+        evidence['coverage']['traces_validated_against_impl'] += val['agreed']
     if hasattr(P, 'evidence_extra'): P.evidence_extra(evidence, recs)
     EVD = os.environ.get('XV_EVIDENCE_DIR') or os.path.join(VERIF, 'evidence')
     os.makedirs(EVD, exist_ok=True)
     json.dump(evidence, open(os.path.join(EVD, prop + '.json'), 'w'), indent=1, default=str)
     for l in lines: print(l)
-    print('%s %s: wrappers=%d bodies=%d obligations=%d discharged=%d undecided=%d unsupported=%d errors=%d violations=%d solver=%.1fs wall=%.1fs' % (
-        prop, tier, len(kernels), len(recs), tot['obligations'], tot['discharged'], len(undec), len(unsupported), len(errors), nviol, tot['solver_s'], wall))
+    print('%s %s: wrappers=%d bodies=%d obligations=%d discharged=%d undecided=%d unsupported=%d errors=%d violations=%d validated=%d/%d mismatches=%d solver=%.1fs wall=%.1fs' % (
+        prop, tier, len(kernels), len(recs), tot['obligations'], tot['discharged'], len(undec), len(unsupported), len(errors), nviol, val['agreed'], val['bodies'], len(mism), tot['solver_s'], wall))
     if os.environ.get('XV_PROF'):
         for r in sorted(recs, key=lambda r: -r.get('wall_s', 0))[:15]:
             print('PROF %-40s wall=%.1f enc=%.1f solver=%.1f obl=%d search=%d steps=%d' % (r['kernel'], r.get('wall_s', 0), r['enc_s'], r['solver_s'], r['obligations'], r['by_search'], r['steps']))
     if errors:
         for e in errors[:5]: print('INTERNAL-ERROR %s: %s' % e, file=sys.stderr)
         return 3
+    if mism:
+        for m_ in mism[:10]: print('ENCODER-MISMATCH %s inputs=%s native=%s %s' % (m_['kernel'], json.dumps(m_['inputs'])[:300], str(m_['native'])[:64], m_.get('lanes') or m_.get('why')), file=sys.stderr)
+        if not os.environ.get('XV_VALIDATE_NONFATAL'): return 3
     if covered < need:
         print('INTERNAL-ERROR coverage collapsed: %d wrappers covered < %d required' % (covered, need), file=sys.stderr)
         return 3
